@@ -12,6 +12,7 @@ import P2P.Model.MainFlow
 import P2P.Gen.MainFlow
 import P2P.Model.ChargeGuard
 import P2P.Proofs.ChargeLemmas
+import P2P.Proofs.OptionGateLemmas
 
 namespace P2P.Props.C12
 open P2P.MainFlow P2P.Gen.MainFlow
@@ -95,5 +96,62 @@ example : P2P.ChargeGuard.nonInteger (-7086 / 10000 : ℚ) (1 / 1000) = true := 
   have h3 : n < 0 := by exact_mod_cast h1
   have h4 : -1 < n := by exact_mod_cast h2
   omega
+
+/-! ### The request gate (`check_files`, `check_options`; Model/OptionGate.lean) -/
+
+open P2P.OptionGate in
+/-- **the gate, characterised for EVERY request**: `main_driver` gets past `check_files` and
+`check_options` exactly for the usable requests — every named file exists, a user force field comes
+with a names file, the built-in force field has its data file, 0 ≤ pH ≤ 14 (NaN slips through both
+comparisons, as in Python), and the neutral-terminus options are used with PARSE only. Every other
+option or file combination is refused (and, by `checks_first`, before anything is opened). -/
+theorem gate_accepts_iff_usable (r : Req) : gate r = none ↔ Usable r :=
+  P2P.Proofs.OptionGate.gate_none_iff_core r
+
+open P2P.OptionGate in
+/-- a user force field without a names file is refused, whatever else the request says (in
+particular whatever `--ff` says: the clause the round-4 seeded defect disabled) -/
+theorem userff_without_usernames_refused (r : Req) (h1 : r.userff = some true) (h2 : r.usernames = none) :
+    gate r ≠ none := by
+  intro h
+  have hu := (gate_accepts_iff_usable r).mp h
+  have := hu.2.2.1 h1
+  rw [h2] at this
+  cases this
+
+open P2P.OptionGate in
+/-- a named file that does not exist is refused -/
+theorem missing_file_refused (r : Req) (h : r.usernames = some false ∨ r.userff = some false ∨ r.ligand = some false) :
+    gate r ≠ none := by
+  intro hg
+  have hu := (gate_accepts_iff_usable r).mp hg
+  rcases h with h | h | h
+  · exact hu.1 h
+  · exact hu.2.1 h
+  · exact hu.2.2.2.2.1 h
+
+open P2P.OptionGate in
+/-- a pH outside [0, 14] (±inf included) is refused -/
+theorem ph_outside_refused (r : Req) (h : phOutside r.ph = true) : gate r ≠ none := by
+  intro hg
+  have hu := (gate_accepts_iff_usable r).mp hg
+  rw [hu.2.2.2.2.2.1] at h
+  cases h
+
+open P2P.OptionGate in
+/-- neutral termini are refused unless the force field is PARSE (in any letter case) -/
+theorem neutral_termini_need_parse (r : Req) (h : r.neutraln = true ∨ r.neutralc = true) (hp : isParse r.ff = false) :
+    gate r ≠ none := by
+  intro hg
+  have hu := (gate_accepts_iff_usable r).mp hg
+  rcases h with h | h
+  · have := hu.2.2.2.2.2.2.1 h; rw [hp] at this; cases this
+  · have := hu.2.2.2.2.2.2.2 h; rw [hp] at this; cases this
+
+open P2P.OptionGate in
+/-- non-vacuity: an ordinary request passes, the round-4 request does not -/
+example : gate ⟨none, none, some (str "AMBER"), true, none, .fin 7000, false, false⟩ = none ∧
+    gate ⟨none, some true, some (str "AMBER"), true, none, .fin 7000, false, false⟩ = some .userffWithoutUsernames ∧
+    gate ⟨some true, some true, some (str "PARSE"), true, some true, .fin 14000, true, true⟩ = none := by decide
 
 end P2P.Props.C12
